@@ -547,6 +547,9 @@ func (x *Exec) evalComposite(s *State, e *ast.CompositeLit, addr bool) *Term {
 			arr = x.fresh("emptylit", arraySort(SInt, el))
 			r := x.u.mkSlice(srt, Num(0), arr)
 			s.assume(Not(mk("isnil_"+srt, SBool, r)))
+			if x.c != nil && x.c.Options["slice-elems"] {
+				s.assume(Eq(mk("elems_"+mangle(srt), arraySort(el, SBool), r), &Term{Op: "const-array", Sort: arraySort(el, SBool), Args: []*Term{False}}))
+			}
 			return withType(r, t)
 		}
 		for i, elt := range e.Elts {
